@@ -146,6 +146,7 @@ type inboxRoles struct {
 	schedSites  []*atomicOp // every CAS(idle->running) whose success guards a Schedule hand-off (one per function when the scheduling function was inlined)
 	worker      *ssa.Function // function handed to Scheduler.Schedule
 	workerWrap  *ssa.Function // the forwarding closure actually handed over, if any
+	handed      []handOff     // per hand-off site: the function given to the scheduler
 	loop        *ssa.Function // calls PopN and Processer.Invoke
 	start       *ssa.Function // Inboxer.Start implementation
 	stop        *ssa.Function
@@ -156,6 +157,13 @@ type inboxRoles struct {
 	stopped     string
 	starting    string
 	problems    []string
+}
+
+type handOff struct {
+	site *atomicOp
+	fn   *ssa.Function
+	wrap *ssa.Function
+	pos  string
 }
 
 func (w *World) evSchedule() Ev {
@@ -263,7 +271,10 @@ func (w *World) findInboxRolesUncached() *inboxRoles {
 						ir.workerWrap = wf
 						wf = t
 					}
+					ir.handed = append(ir.handed, handOff{site: op, fn: wf, wrap: ir.workerWrap, pos: w.pos(g.ins[n].Pos())})
 					ir.worker = wf
+				} else {
+					ir.handed = append(ir.handed, handOff{site: op, pos: w.pos(g.ins[n].Pos())})
 				}
 			}
 		}
@@ -286,6 +297,18 @@ func (w *World) findInboxRolesUncached() *inboxRoles {
 		}
 		if len(fns) > 1 {
 			ir.schedule = nil
+		}
+	}
+	// when the sites hand over different functions, the worker is the one that releases the token
+	for _, h := range ir.handed {
+		if h.fn == nil || h.fn == ir.worker {
+			continue
+		}
+		for i := range ir.ops {
+			op := &ir.ops[i]
+			if op.fn == h.fn && op.kind == "CAS" && op.old == ir.running && op.new == ir.idle {
+				ir.worker, ir.workerWrap = h.fn, h.wrap
+			}
 		}
 	}
 	if ir.worker == nil {
